@@ -1,4 +1,5 @@
 import LinOp.C07.ProofsSym
+import LinOp.C07.ProofsBackward
 import Mathlib.Tactic.NormNum
 import LinOp.C07.ProofsFunc
 /-!
@@ -13,13 +14,16 @@ open LinOp Matrix
 
 variable {α : Type} [CommRing α]
 
-/-- **Hand-written derivative = derivative of the dense matrix** (`bilinearDerivative_<class>` and
-`bilinearDerivative_nested` in one statement), FULL: for EVERY operator tree of the model — Dense, Diag, ConstantDiag,
-Toeplitz (`sym_toeplitz_derivative_quadratic_form`), ConstantMul (incl. the constant's own gradient), Matmul, Sum/AddedDiag,
-Mul, Masked, Interpolated, BlockDiag, BlockInterleaved, SumBatch, nested to any depth, any sizes, any number of vector
-pairs — and every perturbation `δ` of the parameters,
+/-- **`_bilinear_derivative` (hand-written or inherited) = derivative of the dense matrix** (`bilinearDerivative_<class>` and
+`bilinearDerivative_nested` in one statement), FULL: for EVERY operator tree of the model — Dense / Triangular, Diag,
+ConstantDiag, Toeplitz (`sym_toeplitz_derivative_quadratic_form`), ConstantMul (incl. the constant's own gradient), Matmul,
+Sum / AddedDiag / PsdSum / LowRankRootAddedDiag / KroneckerProductAddedDiag / SumKronecker, Mul (root branch `mulRoot` and the
+dead non-root branch `mul`), Masked, Interpolated, BlockDiag, BlockInterleaved, SumBatch, and the classes that inherit the default
+derivative (reverse sweep through their own `_matmul`): Root / LowRankRoot / Chol, Kronecker (binary constructor; P factors are
+the right-nested tree, which is the loop of `_matmul`), Cat along rows / columns, transposes — nested to any depth, any sizes,
+any number of vector pairs — and every perturbation `δ` of the parameters,
 `Σ_k (op._bilinear_derivative(U, V))_k · δ_k = Σ_c u_cᵀ (D⟦op⟧_θ[δ]) v_c`, the ε-part of `Σ_c u_cᵀ ⟦op(θ+εδ)⟧ v_c`.
-Structural induction over all 13 constructors (`all_correct`), each step feeding the intermediate vectors to the sub-operator. -/
+Structural induction over all 19 constructors (`all_correct`), each step feeding the intermediate vectors to the sub-operator. -/
 theorem bilinearDerivative_all {n m : Nat} (o : Op n m) (θ δ : Param α o) {d : Nat} (U : Mat α n d) (V : Mat α m d) :
     pair o (bilinDeriv o θ U V) δ = bil (dDenote o θ δ) U V := by
   rw [bil_eq_bilS]
@@ -48,6 +52,12 @@ theorem denote_dual_re {n m : Nat} (o : Op n m) (θ δ : Param α o) (i : Fin n)
   | blockDiag k o ih => exact reOK_blockDiag k o ih θ δ i j
   | blockInterleaved k o ih => exact reOK_blockInterleaved k o ih θ δ i j
   | sumBatch k o ih => exact reOK_sumBatch k o ih θ δ i j
+  | transpose o ih => exact reOK_transpose o ih θ δ i j
+  | root o ih => exact reOK_root o ih θ δ i j
+  | mulRoot a b iha ihb => exact reOK_mulRoot a b iha ihb θ δ i j
+  | kron a b iha ihb => exact reOK_kron a b iha ihb θ δ i j
+  | catRows a b iha ihb => exact reOK_catRows a b iha ihb θ δ i j
+  | catCols a b iha ihb => exact reOK_catCols a b iha ihb θ δ i j
 
 /-- **BatchRepeat / broadcast parameters are summed** (`broadcast_params_summed`): moving the repeat batches into the
 columns delivers to the base operator's parameters the SUM over the repeats of the per-repeat bilinear forms. -/
@@ -75,6 +85,40 @@ theorem bilinearDerivative_nested_sumBatch {n m : Nat} (k : Nat) (o : Op n m) (h
     Correct α (.sumBatch k o) :=
   correct_sumBatch k o h
 
+/-- Nesting, Root / LowRankRoot / Chol step: the default derivative (reverse sweep through `root._matmul(root._t_matmul(rhs))`)
+hands `(U, Rᵀ V)` and `(V, Rᵀ U)` to the root operator and ADDS the two tuples; correct if the root operator's derivative is. -/
+theorem bilinearDerivative_nested_root {n k : Nat} (o : Op n k) (hr : ReOK α o) (h : Correct α o) : Correct α (.root o) :=
+  correct_root o hr h
+
+/-- Nesting, Mul (root branch, the live branch of the hand-written code): each Root factor receives the `rank·d` columns
+`U[:,c]·R_other[:,r]`, `V[:,c]·R_other[:,r]`; pairs to the derivative of `(R_a R_aᵀ) ∘ (R_b R_bᵀ)`. -/
+theorem bilinearDerivative_nested_mulRoot {n k₁ k₂ : Nat} (a : Op n k₁) (b : Op n k₂)
+    (hra : ReOK α a) (hrb : ReOK α b) (ha : Correct α a) (hb : Correct α b) : Correct α (.mulRoot a b) :=
+  correct_mulRoot a b hra hrb ha hb
+
+/-- Nesting, Kronecker step: the reverse sweep through the view / `factor._matmul` / `transpose(-3,-2)` / reshape loop gives
+the first factor `(Bᵀ-applied upstream, re-viewed rhs)` and the second `(re-viewed upstream, first factor's output)`, with
+`m₂·d` resp. `n₁·d` columns; pairs to `dA ⊗ B + A ⊗ dB`.  Right-nesting gives any number of factors. -/
+theorem bilinearDerivative_nested_kron {n₁ m₁ n₂ m₂ : Nat} (a : Op n₁ m₁) (b : Op n₂ m₂)
+    (hra : ReOK α a) (hrb : ReOK α b) (ha : Correct α a) (hb : Correct α b) : Correct α (.kron a b) :=
+  correct_kron a b hra hrb ha hb
+
+/-- Nesting, Cat step (rows: `torch.cat` of the parts' products — each part gets its rows of `U`; columns: sum of the parts'
+products with the matching rows of the rhs — each part gets its rows of `V`). -/
+theorem bilinearDerivative_nested_cat {n₁ n₂ n m m₁ m₂ : Nat} (a : Op n₁ m) (b : Op n₂ m) (a' : Op n m₁) (b' : Op n m₂)
+    (ha : Correct α a) (hb : Correct α b) (ha' : Correct α a') (hb' : Correct α b') :
+    Correct α (.catRows a b) ∧ Correct α (.catCols a' b') :=
+  ⟨correct_catRows a b ha hb, correct_catCols a' b' ha' hb'⟩
+
+/-- Nesting, transpose step: `uᵀ Aᵀ v = vᵀ A u`. -/
+theorem bilinearDerivative_nested_transpose {n m : Nat} (o : Op n m) (h : Correct α o) : Correct α (.transpose o) :=
+  correct_transpose o h
+
+/-- Reverse-mode accumulation: the tuple `addP g h` (two uses of the same tensors) pairs to the sum of the pairings. -/
+theorem gradient_accumulation {n m : Nat} (o : Op n m) (g h δ : Param α o) :
+    pair o (addP o g h) δ = pair o g δ + pair o h δ :=
+  pair_addP o g h δ
+
 /-- **Tuple alignment, length**: the tuple returned by the hand-written `_bilinear_derivative` of every operator
 tree (all classes of the model) has exactly one entry per tensor of `representation()`. -/
 theorem bilinearDerivative_aligned_length {n m : Nat} (o : Op n m) :
@@ -96,6 +140,12 @@ theorem bilinearDerivative_aligned {n m : Nat} (o : Op n m) :
   | blockDiag k o ih => exact ih
   | blockInterleaved k o ih => exact ih
   | sumBatch k o ih => exact ih
+  | transpose o ih => exact ih
+  | root o ih => exact ih
+  | mulRoot a b iha ihb => exact List.rel_append iha ihb
+  | kron a b iha ihb => exact List.rel_append iha ihb
+  | catRows a b iha ihb => exact List.rel_append iha ihb
+  | catCols a b iha ihb => exact List.rel_append iha ihb
 
 /-- **matmul backward**: for `Y = A B` the first-order change is `dY = dA B + A dB`; against an upstream gradient `G`,
 `⟨G, dY⟩ = tr(Gᵀ dA B) + ⟨Aᵀ G, dB⟩` — the parameters receive `_bilinear_derivative(G, B)` and the right-hand side
@@ -197,6 +247,74 @@ theorem memoryEfficient_irrelevant_solve {n c : Nat} (o : Op n n) (θ : Param α
     solveBackwardArgs o (solveForwardCtx true o θ X) half Ls = solveBackwardArgs o (solveForwardCtx false o θ X) half Ls :=
   solveBackward_memoryEfficient o θ half X Ls
 
+/-- **solve backward with a left factor** (`Y = L A⁻¹ R`, the `has_left` branch of `Solve.backward`): the left factor receives
+`G Xᵀ` (`X = A⁻¹R` the saved solves), the rhs `A⁻ᵀ Lᵀ G`, the parameters the bilinear form with `−(A⁻ᵀLᵀG) Xᵀ`. -/
+theorem solve_backward_left {n c l : Nat} (A Ainv dA : Matrix (Fin n) (Fin n) α) (X dX R dR : Matrix (Fin n) (Fin c) α)
+    (L dL : Matrix (Fin l) (Fin n) α) (G : Matrix (Fin l) (Fin c) α)
+    (hinv : Ainv * A = 1) (h1 : A * dX + dA * X = dR) :
+    Matrix.trace (Gᵀ * (dL * X + L * dX))
+      = Matrix.trace ((G * Xᵀ)ᵀ * dL) + (Matrix.trace ((Ainvᵀ * (Lᵀ * G))ᵀ * dR) - bilS dA (Ainvᵀ * (Lᵀ * G)) X) :=
+  solveLeft_pullback A Ainv dA X dX R dR L dL G hinv h1
+
+/-- **`RootDecomposition.backward`** (full-rank case, `W = R⁻ᵀ` the saved inverse root, `½ + ½ = 1`, symmetric `dA`):
+(1) the root differential `dR = ½ dA W` is a first-order root of `A + ε dA` (`dR Rᵀ + R dRᵀ = dA`);
+(2) `dW = −W dRᵀ W` is the matching differential of the inverse root (`dRᵀ W + Rᵀ dW = 0`);
+(3) for upstream gradients `G_R`, `G_W`: `⟨G_R, dR⟩ + ⟨G_W, dW⟩ = Σ_c l_cᵀ dA r_c` with `l = G_R − W G_Wᵀ W`, `r = ½ W` —
+the factors the code hands to `_bilinear_derivative` (`inverse @ inverse_grad_output.mT @ inverse`, `inverse.div(2)`). -/
+theorem rootDecomposition_backward {n : Nat} (half : α) (hh : half + half = 1) (R W dA GR GW : Matrix (Fin n) (Fin n) α)
+    (hW : W * Rᵀ = 1) (hW' : Rᵀ * W = 1) (hs : dAᵀ = dA) :
+    (half • (dA * W)) * Rᵀ + R * (half • (dA * W))ᵀ = dA
+    ∧ (half • (dA * W))ᵀ * W + Rᵀ * (-(W * (half • (dA * W))ᵀ * W)) = 0
+    ∧ Matrix.trace (GRᵀ * (half • (dA * W))) + Matrix.trace (GWᵀ * (-(W * (half • (dA * W))ᵀ * W)))
+        = bilS dA (GR - W * GWᵀ * W) (half • W) :=
+  ⟨rootDiff_isRoot half hh R W dA hW hs, invRootDiff_isInverse R W _ hW', rootDecomposition_pullback half W dA GR GW hs⟩
+
+/-- **`SqrtInvMatmul.backward`** (no left factor): `Y = Σ_q w_q X_q` with the shifted solves `(v·A + s_q) X_q = B`
+(`minres(value = v = −1, shifts)`; weights and shifts constant).  The rhs receives `Σ_q w_q M_q⁻ᵀ G` and the matrix parameters
+`−v · Σ_q Σ_c (w_q M_q⁻ᵀ G)_cᵀ dA (X_q)_c` — factors `terms1 = grad_solves·weights`, `terms2 = rhs_solves`, summed over the
+quadrature index (a leading batch dimension), sign `+` for `v = −1`. -/
+theorem sqrtInvMatmul_backward {Q n c : Nat} (v : α) (w s : Fin Q → α) (A dA : Matrix (Fin n) (Fin n) α)
+    (Minv : Fin Q → Matrix (Fin n) (Fin n) α) (X dX : Fin Q → Matrix (Fin n) (Fin c) α) (B dB G : Matrix (Fin n) (Fin c) α)
+    (hinv : ∀ q, Minv q * (v • A + s q • 1) = 1) (h0 : ∀ q, (v • A + s q • 1) * X q = B)
+    (h1 : ∀ q, (v • A + s q • 1) * dX q + (v • dA) * X q = dB) :
+    Matrix.trace (Gᵀ * ∑ q, w q • dX q)
+      = Matrix.trace ((∑ q, w q • ((Minv q)ᵀ * G))ᵀ * dB) - v * ∑ q, bilS dA (w q • ((Minv q)ᵀ * G)) (X q) :=
+  sqrtInvMatmul_pullback v w s A dA Minv X dX B dB G hinv h0 h1
+
+/-- **`InvQuadLogdet.backward`, probe vectors drawn with a preconditioner**: if the probes have second moment `P`
+(`coef · Z Zᵀ = P`, `coef = 1/num_probes`, the exact form of `z ~ N(0, P)`), the probe block of the factors —
+left `coef · A⁻¹ Z` (`probe_vector_solves`), right `P⁻¹ Z` (`preconditioner(probe_vectors)`) — pairs to `tr(A⁻¹ dA)`,
+the derivative of the log-determinant (`logdet_backward`).  `P = 1` is `logdet_probe_estimator`. -/
+theorem logdet_probe_estimator_preconditioned {n t : Nat} (coef : α) (Ainv dA P Pinv : Matrix (Fin n) (Fin n) α)
+    (Z : Matrix (Fin n) (Fin t) α) (hA : Ainvᵀ = Ainv) (hP : Pinv * P = 1) (hZ : coef • (Z * Zᵀ) = P) :
+    bilS dA (coef • (Ainv * Z)) (Pinv * Z) = Matrix.trace (Ainv * dA) :=
+  logdet_probe_estimator_precond coef Ainv dA P Pinv Z hA hP hZ
+
+/-- The preconditioner's own tensors receive `_bilinear_derivative(−coef·P⁻¹Z, P⁻¹Z)` = `−tr(P⁻¹ dP)`, cancelling the
+derivative of the `logdet(P)` term of the preconditioned estimate. -/
+theorem logdet_preconditioner_gradient {n t : Nat} (coef : α) (dP P Pinv : Matrix (Fin n) (Fin n) α) (Z : Matrix (Fin n) (Fin t) α)
+    (hPs : Pinvᵀ = Pinv) (hP : Pinv * P = 1) (hZ : coef • (Z * Zᵀ) = P) :
+    bilS dP (-(coef • (Pinv * Z))) (Pinv * Z) = - Matrix.trace (Pinv * dP) :=
+  logdet_precond_gradient coef dP P Pinv Z hPs hP hZ
+
+/-- **`InvQuadLogdet.backward`, concatenated factors**: the ONE call `_bilinear_derivative(cat[L₁, L₂], cat[R₁, R₂])` (probe
+block and inv_quad block, different numbers of columns) pairs, for EVERY operator tree and every parameter perturbation, to
+the sum of the two bilinear forms `g_ld · tr-estimator − g_iq · Σ_c x_cᵀ D x_c`. -/
+theorem invQuadLogdet_concatenated {n m : Nat} (o : Op n m) (θ δ : Param α o) {d₁ d₂ : Nat}
+    (L₁ : Mat α n d₁) (L₂ : Mat α n d₂) (R₁ : Mat α m d₁) (R₂ : Mat α m d₂) :
+    pair o (bilinDeriv o θ (hcat L₁ L₂) (hcat R₁ R₂)) δ = bilS (dDenote o θ δ) L₁ R₁ + bilS (dDenote o θ δ) L₂ R₂ :=
+  concatenatedDeriv_pair o θ δ L₁ L₂ R₁ R₂
+
+/-- **`PivotedCholesky.backward`** differentiates a re-computation of the factor from the selected rows with the permutation
+held fixed: `F = [L; K₂₁ L⁻ᵀ]`, `L Lᵀ = K₁₁`.  In every commutative ring (hence for `K + ε dK`, to first order) `F Fᵀ` has the
+blocks `K₁₁`, `K₂₁` and the Schur form `K₂₁ K₁₁⁻¹ K₂₁ᵀ`: the re-computed expression is the pivoted Cholesky factor of that
+permutation.  (The derivative of `cholesky` / `solve_triangular` themselves is torch's — assumed.) -/
+theorem pivotedCholesky_backward_recompute {m r : Nat} (L Linv K11 : Matrix (Fin m) (Fin m) α) (K21 : Matrix (Fin r) (Fin m) α)
+    (hL : L * Lᵀ = K11) (hinv : Linv * L = 1) :
+    L * Lᵀ = K11 ∧ (K21 * Linvᵀ) * Lᵀ = K21 ∧ (K21 * Linvᵀ) * (K21 * Linvᵀ)ᵀ = K21 * (Linvᵀ * Linv) * K21ᵀ
+      ∧ (Linvᵀ * Linv) * K11 = 1 :=
+  pivotedCholesky_recompute L Linv K11 K21 hL hinv
+
 /-- The hypotheses of `solveBackward_symmetrised` are satisfiable: `½ + ½ = 1` in ℚ, and a diagonal operator is symmetric
 along every perturbation. -/
 example : ((1 : ℚ) / 2) + 1 / 2 = 1 := by norm_num
@@ -206,6 +324,16 @@ example (θ δ : Param ℚ (.diag 3)) (i j : Fin 3) : dDenote (.diag 3) θ δ i 
   · subst h; rfl
   · have h' : ¬ j = i := fun e => h e.symm
     simp [h, h']
+
+/-- Hypotheses of the backward-formula theorems are satisfiable (identity matrices; shift `2`, value `−1`). -/
+example : (1 : Matrix (Fin 2) (Fin 2) ℚ) * (1 : Matrix (Fin 2) (Fin 2) ℚ)ᵀ = 1 := by simp
+example : (1 : Matrix (Fin 2) (Fin 2) ℚ) * ((-1 : ℚ) • (1 : Matrix (Fin 2) (Fin 2) ℚ) + (2 : ℚ) • 1) = 1 := by
+  rw [← add_smul]; norm_num
+example : (1 : ℚ) • ((1 : Matrix (Fin 2) (Fin 2) ℚ) * (1 : Matrix (Fin 2) (Fin 2) ℚ)ᵀ) = 1 := by simp
+
+/-- Kronecker product of three factors (right-nested), under a hand-written parent, with a Chol-type root and a Cat. -/
+example : Op (2 * (3 * 2) + 4) 12 :=
+  .catRows (.constMul (.kron (.dense 2 2) (.kron (.toeplitz 3) (.dense 2 2)))) (.transpose (.matmul (.dense 12 4) (.root (.dense 4 4))))
 
 /-- A non-trivial instance of the main theorem's quantifier: a depth-4 nesting through every kind of step. -/
 example : Op 3 3 := .constMul (.matmul (.sum (.toeplitz 3) (.dense 3 3))
